@@ -348,9 +348,12 @@ class Gen:
         prev_ref = False
         for _ in range(n):
             if r.random() < 0.5:
-                items.append(self.tref())
-                if prev_ref:
+                if prev_ref and r.random() < 0.9:
+                    # two references with nothing between them are C16's listed finding: keep them rare
+                    items.append(L.t_text(r.choice(L.SEPARATORS)))
+                elif prev_ref:
                     self.adjacent_refs = True
+                items.append(self.tref())
                 prev_ref = True
             else:
                 ln = r.choice([1, 1, 2, 3, 6])
